@@ -165,4 +165,63 @@ theorem hrefDecodeAux_hrefByte (b : UInt8) (hb : b ≠ 0x25) (rest : Bytes) :
       · obtain ⟨h1, h2, h3⟩ := hex_roundtrip b
         simp [pctByte, hrefDecodeAux, isPrefixB, entAmp, entApos, h1, h2, h3]
 
+/-! ### Href decoder on inputs that contain `%` (but no text reading as a percent escape) -/
+
+/-- The next two bytes exist and are both hex digits (either case). -/
+def twoHexPrefix : Bytes → Bool
+  | h :: l :: _ => (hexVal? h).isSome && (hexVal? l).isSome
+  | _ => false
+
+/-- No `%` of the input is followed by two hex digits: the input holds no text that already
+    reads as a percent escape. -/
+def noPctEscape : Bytes → Bool
+  | [] => true
+  | b :: r => !(b == 0x25 && twoHexPrefix r) && noPctEscape r
+
+theorem hrefByte_hex : ∀ b : UInt8, (hexVal? b).isSome = true → hrefByte b = [b] :=
+  forall_uint8_of_fin (by decide +kernel)
+
+theorem hrefByte_head_hex' : ∀ b : UInt8,
+    hrefByte b = (hrefByte b).headD 0 :: (hrefByte b).tail ∧
+    (hexVal? ((hrefByte b).headD 0)).isSome = (hexVal? b).isSome :=
+  forall_uint8_of_fin (by decide +kernel)
+
+theorem hrefByte_head_hex (b : UInt8) :
+    ∃ h t, hrefByte b = h :: t ∧ (hexVal? h).isSome = (hexVal? b).isSome :=
+  ⟨_, _, (hrefByte_head_hex' b).1, (hrefByte_head_hex' b).2⟩
+
+theorem hrefByte_pct : hrefByte 0x25 = [0x25] := by decide
+
+theorem twoHexPrefix_escapeHref (r : Bytes) : twoHexPrefix (escapeHref r) = twoHexPrefix r := by
+  match r with
+  | [] => rfl
+  | [c] =>
+    obtain ⟨h, t, e, hh⟩ := hrefByte_head_hex c
+    by_cases hc : (hexVal? c).isSome = true
+    · simp [escapeHref, hrefByte_hex c hc, twoHexPrefix]
+    · simp only [escapeHref_cons, e, twoHexPrefix]
+      cases t <;> simp_all [escapeHref]
+  | c :: c2 :: r' =>
+    obtain ⟨h2, t2, e2, hh2⟩ := hrefByte_head_hex c2
+    by_cases hc : (hexVal? c).isSome = true
+    · rw [escapeHref_cons, hrefByte_hex c hc, escapeHref_cons, e2]
+      simp [twoHexPrefix, hh2]
+    · obtain ⟨h, t, e, hh⟩ := hrefByte_head_hex c
+      rw [escapeHref_cons, e]
+      have : (hexVal? h).isSome = false := by simp_all
+      cases t with
+      | nil =>
+        rw [escapeHref_cons, e2]; simp_all [twoHexPrefix]
+      | cons x xs => simp_all [twoHexPrefix]
+
+theorem hrefDecodeAux_pct_literal (rest : Bytes) (h : twoHexPrefix rest = false) :
+    hrefDecodeAux 0 (0x25 :: rest) = 0x25 :: hrefDecodeAux 0 rest := by
+  match rest with
+  | [] => simp [hrefDecodeAux, isPrefixB, entAmp, entApos]
+  | [x] => simp [hrefDecodeAux, isPrefixB, entAmp, entApos]
+  | x :: y :: r =>
+    cases hx : hexVal? x <;> cases hy : hexVal? y <;>
+      simp [twoHexPrefix, hx, hy] at h <;>
+      simp [hrefDecodeAux, isPrefixB, entAmp, entApos, hx, hy]
+
 end Comrak
